@@ -224,7 +224,10 @@ pub fn run_case(ctx: &mut Ctx, rng: &mut Rng, c: &Case, label: &str) {
         3 => headers_ct.push(("Content-Type".into(), b"text/plain".to_vec())),
         _ => {}
     }
-    let mut b = build_response(status_line, &headers_ct, if c.framing == Framing::Length { Framing::Close } else { c.framing }, &stream, &sizes, &[Default::default()], b"");
+    // (chunk framing as varied as in C01: hex case, zero padding, chunk extensions - also ones with
+    //  obs-text in a quoted value -: what is between the size and the line end is not the decoder's business)
+    let styles = if rng.chance(1, 3) { respgen::random_styles(rng) } else { vec![Default::default()] };
+    let mut b = build_response(status_line, &headers_ct, if c.framing == Framing::Length { Framing::Close } else { c.framing }, &stream, &sizes, &styles, b"");
     if c.framing == Framing::Length {
         // insert the Content-Length by hand (it may deliberately exceed what is served)
         let mut head = b.wire[..b.head_len - 2].to_vec();
